@@ -88,6 +88,9 @@ Proof.
   rewrite ?gen_new_eq, ?gen_try_new_eq; cbv zeta.
   repeat match goal with
   | |- context [gtb ?a ?b] => let H := fresh "Hc" in destruct (gtb a b) eqn:H
+  end; cbn [andb orb negb Bool.eqb]; try reflexivity;
+  repeat match goal with
+  | |- context [@Num.eqb ?B ?a ?b] => let H := fresh "He" in destruct (@Num.eqb B a b) eqn:H
   end; cbn [andb orb negb Bool.eqb]; reflexivity.
 Qed.
 
